@@ -15,9 +15,11 @@ Theorem C08_value : forall c v k, string_reader_drops_err c = false -> wf_dval v
 Proof. exact new_value_prefix_top. Qed.
 Print Assumptions C08_value.
 
-(* typed data of any signature through the signature-driven reader *)
+(* typed data of any signature through the signature-driven reader (containers of zero-width
+   elements included: their members add nothing to the encoding, so every proper prefix cuts
+   a count or a sized member) *)
 Theorem C08_sig_read : forall c v t fuel k, string_reader_drops_err c = false ->
-  good_ty t = true -> has_ty v t = true -> (dyn_depth v <= fuel)%nat ->
+  wf_ty t = true -> has_ty v t = true -> (dyn_depth v <= fuel)%nat ->
   (k < List.length (spec_enc v))%nat -> fails (sig_read parse_opt c fuel t (firstn k (spec_enc v))).
 Proof. exact sig_read_prefix_top. Qed.
 Print Assumptions C08_sig_read.
@@ -25,13 +27,13 @@ Print Assumptions C08_sig_read.
 (* Go values through the reflection decoder *)
 Theorem C08_refl_dec : forall c v t k,
   refl_struct_ignores_err c = false -> refl_neg_len_panics c = false -> refl_drop8 c = false ->
-  good_ty t = true -> has_ty v t = true -> refl_domain t = true -> lens_ok v = true ->
+  wf_ty t = true -> has_ty v t = true -> refl_domain t = true -> lens_ok v = true ->
   (k < List.length (spec_enc v))%nat -> fails (refl_dec c tval_eqb t (firstn k (spec_enc v))).
 Proof. exact refl_dec_prefix_top. Qed.
 Print Assumptions C08_refl_dec.
 
 (* generated decoders: meta-object, object reference, service info, any signature without "m" *)
-Theorem C08_generated : forall t v k, good_ty t = true -> has_ty v t = true -> dyn_depth v = 0%nat ->
+Theorem C08_generated : forall t v k, wf_ty t = true -> has_ty v t = true -> dyn_depth v = 0%nat ->
   (k < List.length (spec_enc v))%nat -> fails (gen_dec parse_opt t (firstn k (spec_enc v))).
 Proof. exact gen_dec_prefix. Qed.
 Print Assumptions C08_generated.
@@ -48,3 +50,6 @@ Print Assumptions C08_refuted_struct_errors.
 Example C08_nonvacuous :
   good_ty ex_ty = true /\ has_ty ex_val ex_ty = true /\ dyn_depth ex_val = 1%nat /\ (List.length (spec_enc ex_val) = 39)%nat.
 Proof. exact ex_val_ok. Qed.
+Example C08_nonvacuous_zero_width :
+  wf_ty zw_ty = true /\ wfz zw_ty = false /\ has_ty zw_val zw_ty = true /\ dyn_depth zw_val = 1%nat /\ (List.length (spec_enc zw_val) = 42)%nat.
+Proof. exact zw_val_ok. Qed.
